@@ -81,6 +81,9 @@ pub enum RecFault {
     RaiseTtl,
     StripRrsigs,
     Resign(KeyChoice),
+    /// ONE extra record inserted right behind this one: an exact copy except class CH
+    /// (`forged` = false) or class CH with attacker RDATA (`forged` = true)
+    InjectForeignClass { forged: bool },
 }
 
 #[derive(Clone, Copy, Debug, PartialEq, Eq, Hash, PartialOrd, Ord)]
@@ -178,6 +181,7 @@ impl Fault {
                 RecFault::RaiseTtl => "raise-ttl".into(),
                 RecFault::StripRrsigs => "strip-rrsigs".into(),
                 RecFault::Resign(k) => format!("resign-rrset({})", k.tag()),
+                RecFault::InjectForeignClass { forged } => format!("inject-class-CH-record({})", if *forged { "new-rdata" } else { "copy" }),
             },
             Fault::Resp { mv, .. } => match mv {
                 Move::ForgeUnsigned => "forge-unsigned".into(),
@@ -225,6 +229,7 @@ impl Fault {
                 RecFault::FlipBit | RecFault::MarkerRdata => format!("change-rdata({rt})"),
                 RecFault::ChangeOwner => format!("change-owner({rt})"),
                 RecFault::StripRrsigs => format!("strip-rrsigs({rt})"),
+                RecFault::InjectForeignClass { .. } => format!("inject-class-CH-record({rt})"),
             },
             Fault::Resp { mv, .. } => match mv {
                 Move::ForgeUnsigned => "forge-unsigned".into(),
@@ -293,6 +298,8 @@ impl Fault {
                 "change-owner" => RecFault::ChangeOwner,
                 "raise-ttl" => RecFault::RaiseTtl,
                 "strip-rrsigs" => RecFault::StripRrsigs,
+                "inject-class-CH-record(copy)" => RecFault::InjectForeignClass { forged: false },
+                "inject-class-CH-record(new-rdata)" => RecFault::InjectForeignClass { forged: true },
                 _ => RecFault::Resign(k()?),
             };
             return Some(Fault::Rec { q, sec: v["section"].as_u64()? as u8, idx: v["index"].as_u64()? as u16, rt: RecordType::from(v["record_type"].as_u64().unwrap_or(0) as u16), kind });
@@ -840,6 +847,17 @@ impl Script {
                 section_mut(m, sec)[idx].name = new;
             }
             RecFault::RaiseTtl => section_mut(m, sec)[idx].ttl = 86_400 * 365,
+            RecFault::InjectForeignClass { forged } => {
+                if target.record_type() == RecordType::RRSIG {
+                    return false;
+                }
+                let mut extra = target.clone();
+                extra.dns_class = hickory_proto::rr::DNSClass::CH;
+                if forged {
+                    extra.data = marker_rdata(target.record_type(), &target.name, &self.hier);
+                }
+                section_mut(m, sec).insert(idx + 1, extra);
+            }
             RecFault::StripRrsigs => {
                 let before = section_mut(m, sec).len();
                 section_mut(m, sec).retain(|r| !is_rrsig_covering(r, &set_owner, set_type));
@@ -946,6 +964,8 @@ pub fn singles_at(script_probe: &Script, q: &Query, honest: &Message, thorough: 
         for (idx, r) in recs.iter().enumerate() {
             let mut kinds = vec![RecFault::Drop, RecFault::FlipBit, RecFault::MarkerRdata, RecFault::ChangeOwner, RecFault::RaiseTtl];
             if r.record_type() != RecordType::RRSIG {
+                kinds.push(RecFault::InjectForeignClass { forged: false });
+                kinds.push(RecFault::InjectForeignClass { forged: true });
                 let first = recs.iter().position(|x| x.name == r.name && x.record_type() == r.record_type()) == Some(idx);
                 if first {
                     if recs.iter().any(|x| is_rrsig_covering(x, &r.name, r.record_type())) {
